@@ -10,6 +10,8 @@ import numpy as np
 from ..Utilities import Terminal, Tic, _types
 
 # fem
+from ..FEM import Field
+
 if TYPE_CHECKING:
     from ..FEM import Mesh
 
@@ -120,6 +122,9 @@ class WeakForms(_Simu):
         # Data
         weakForms = self.weakForms
         field = weakForms.field
+        if field.groupElem is not self.mesh.groupElem:
+            # the mesh of the simulation has been replaced: the forms are integrated on its elements
+            field = Field(self.mesh.groupElem, field.dof_n, field.matrixType)
         # a surface (or line) mesh carries the thickness wherever it lies in space, like Thermal and Elastic
         thickness = 1.0 if self.mesh.dim == 3 else weakForms.thickness
 
